@@ -493,6 +493,14 @@ def run(ctx):
         badv = None
         for atoms in implied_atoms(val):
             for a in atoms:
+                if a[0] == "truth" and len(atoms) > 1:
+                    # a named condition (`const bool dataFits = ...; return dataFits && errorFree;`): the atoms of its definition are in the
+                    # list as well and are the ones to judge
+                    a3 = strip_all_casts(a[3])
+                    if a3.get("k") == "ref" and a3.get("dk") == "local" and (a3.get("t") or {}).get("k") == "bool" and \
+                            len(facts.local_defs(val).get(a3["decl"], [])) == 1 and \
+                            len(facts.conjuncts(a[3], a[2], val)) > 1:
+                        continue
                 nodes = [a[4], a[5]] if a[0] == "cmp" else [a[3]]
                 used = set()
                 for nd in nodes:
